@@ -158,4 +158,85 @@ Proof.
       exact W2. }
     exact (proj2 (flatten_walk h' top strict Hnd_h' Htop_h' Hplain_h' Hres_h' Htab_h' n e' ds tr st Horig') W3).
 Qed.
+
+Theorem insert_block_h_keeps_ctrace : forall n e e' ds,
+  (exists b p, find h n = Some b /\ n_kind b = KOrig p) ->
+  E Fn e e' ->
+  CTrace h (resolve_flat h) strict n e ds -> CTrace h' (resolve_flat h') strict n e' ds.
+Proof.
+  intros n e e' ds [bn [pn [Hbn Hkn]]] He W.
+  destruct (insert_block_rho rh (fun x => In x dl) Hinj new e0) with (g1 := g1) (g2 := RL h) (preds := preds) (cls := cls) (g1' := g1')
+    as [G' [EG' [HKrel HF]]].
+  - unfold dl. right. left. reflexivity.
+  - unfold dl. left. reflexivity.
+  - apply rho_fresh. exact Hfresh.
+  - exact Hins.
+  - intros x [Hx| ->].
+    + destruct (Hpreds_h x Hx) as [nx [Hn [Hr Hz]]]. rewrite efind_Gi, efind_g1i, Hn, Hr, Hz. cbn [option_map].
+      unfold rh. rewrite mapb_eblk_of. reflexivity.
+    + rewrite efind_Gi, efind_g1i, Hfresh. destruct (zmem new (children_h nl)); reflexivity.
+  - exact Hndp.
+  - exact new_not_pred.
+  - intros p b Hp Hb. split.
+    + intros y Hy. unfold dl. right. right. apply in_flat_map. exists p. split; [exact Hp|]. rewrite Hb. apply in_or_app. left. exact Hy.
+    + intros c v t Ek q Hq. unfold dl. right. right. apply in_flat_map. exists p. split; [exact Hp|]. rewrite Hb.
+      apply in_or_app. right. unfold tbl_targets. rewrite Ek. apply in_map. exact Hq.
+  - (* the chain *)
+    assert (KK : forall x, K x <-> (In x preds \/ x = new)).
+    { intros x. unfold K. split; [intros [H|[[<-|[]]|[H|H]]]; auto|intros [H| ->]; [left; exact H|right; right; left; reflexivity]]. }
+    assert (HkindW : forall p b b', In p preds -> efind g1 p = Some b -> efind g1' p = Some b' ->
+               match e_kind b' with EBranch _ _ _ => True | k => k = e_kind b end).
+    { intros p b b' Hp Hb Hb'. pose proof (Hkind p b b' Hp Hb Hb') as Hk.
+      destruct (e_kind b) eqn:E1; destruct (e_kind b') eqn:E2; try exact I; try discriminate; congruence. }
+    assert (Horig' : exists b' p', find h' n = Some b' /\ n_kind b' = KOrig p').
+    { assert (Hnl : n <> lvl) by (intros ->; rewrite Hl in Hbn; injection Hbn as <-; unfold is_region in Hlr; rewrite Hkn in Hlr; discriminate).
+      unfold h'. rewrite (find_write_back h lvl g1' n nl Hkeys' Hl Hlvl' Hnl).
+      destruct (efind g1' n) as [b'|] eqn:Eb; [|eauto].
+      eexists. exists pn. split; [reflexivity|]. unfold node_back. rewrite Hbn. cbn [n_kind].
+      destruct (in_dec Z.eq_dec n preds) as [Ht|Hnt0].
+      - destruct (Hpreds_h n Ht) as [n0 [Hn0 [_ Hz]]]. rewrite Hbn in Hn0. injection Hn0 as <-.
+        assert (Eg : efind g1 n = Some (eblk_of bn)) by (rewrite efind_g1i, Hz, Hbn; reflexivity).
+        pose proof (Hkind n _ _ Ht Eg Eb) as Hkd. cbn [eblk_of e_kind] in Hkd. rewrite Hkn in Hkd. cbn [ekind_of] in Hkd.
+        rewrite Hkd. cbn [kind_back]. exact Hkn.
+      - assert (NK : ~ (In n preds \/ n = new)).
+        { intros [H| ->]; [contradiction|]. rewrite Hfresh in Hbn. discriminate. }
+        destruct (HF n NK) as [A _]. rewrite A, efind_g1i in Eb. destruct (zmem n (children_h nl)); [|discriminate].
+        rewrite Hbn in Eb. injection Eb as <-. cbn [eblk_of e_kind]. rewrite Hkn. reflexivity. }
+    (* 1: h is its resolved leaf graph *)
+    apply (proj1 (flatten_ctrace h top strict Hnd_h Htop_h Hplain_h Hres_jt_i Htab_h n e ds (ex_intro _ bn (ex_intro _ pn (conj Hbn Hkn))))) in W.
+    (* 2: the insertion into a flat graph keeps the walk *)
+    assert (HnG : exists b, efind (RL h) n = Some b /\ e_kind b = EPlain 100).
+    { exists (rl h bn). split; [rewrite efind_Gi, Hbn; unfold is_region; rewrite Hkn; reflexivity|]. unfold rl. cbn. rewrite Hkn. reflexivity. }
+    assert (W2 : CTrace (ehier top G') (resolve_flat (ehier top G')) strict n e' ds).
+    { eapply (insert_block_one_keeps_ctrace (RL h) top new (rh e0) preds cls G' strict EG').
+      - split; [exact Hndp|exact new_not_pred].
+      - exact HG_preds.
+      - split; [rewrite efind_Gi, Hfresh; reflexivity|exact HG_new].
+      - intros Hi. apply Htop_h. apply ekeys_RL. exact Hi.
+      - exact HG_e0.
+      - intros x b t Hb Ht. destruct (efind (RL h) t) as [bt|] eqn:Et; [eapply efind_keys; eauto|].
+        exfalso. exact (RL_closed h Hnd_h Hres_jt_i x b t Hb Ht Et).
+      - exact HnG.
+      - exact He.
+      - exact W. }
+    (* 3: the leaf graph of the result *)
+    assert (Hlink : forall x, efind (RL h') x = efind G' x).
+    { intros x. unfold h'.
+      refine (link h lvl nl preds [new] new new g1 g1' G' Hl Hlr HLG Hnd_h Hkeys' Hlvl' fresh_K Hpreds_h Hstay HkindW
+                  _ _ _ Hres_h _ Hnd_h' x).
+      - intros x0 Kx. apply HKrel. apply KK. exact Kx.
+      - intros x0 NK. apply (proj1 (HF x0 (fun H => NK (proj2 (KK x0) H)))).
+      - intros x0 NK. apply (proj2 (HF x0 (fun H => NK (proj2 (KK x0) H)))).
+      - intros x0 b t Kx Hb Ht. apply (Hres_new x0 b t (proj1 (KK x0) Kx) Hb Ht). }
+    assert (W3 : CTrace (ehier top (RL h')) (resolve_flat (ehier top (RL h'))) strict n e' ds).
+    { destruct Horig' as [b' [p' [Hb' Hk']]].
+      assert (HnG' : exists b, efind (RL h') n = Some b /\ e_kind b = EPlain 100).
+      { exists (rl h' b'). split; [rewrite (efind_RL' h' n Hnd_h'), Hb'; unfold is_region; rewrite Hk'; reflexivity|].
+        unfold rl. cbn. rewrite Hk'. reflexivity. }
+      apply (proj2 (ehier_congr_c (RL h') G' top strict Hlink
+                      (fun Hi => Htop_h' (ekeys_RL h' top Hi))
+                      (RL_closed h' Hnd_h' Hres_h') n e' ds HnG')).
+      exact W2. }
+    exact (proj2 (flatten_ctrace h' top strict Hnd_h' Htop_h' Hplain_h' Hres_h' Htab_h' n e' ds Horig') W3).
+Qed.
 End FinalIns.
